@@ -22,11 +22,12 @@ def editD (op : String) (args : List Nat) : Option String :=
         let d := prefixDistance fl a b
         if norm then s!"ok q:{d}/{a.length}" else ok [d]
       | none => reject
-  | "eops" => some <| match runP pEditArgs args with
-      | some (_, fl, _, a, b) =>
-        match editOperations fl a b with
-        | some l => ok (eList (fun (k, i, j) => [k.toNat, i, j]) l)
-        | none => err "should-not-happen"
+  | "eops" => some <| match runP (do let x ← pEditArgs; let ops ← pList (do let k ← pNat; let i ← pNat; let j ← pNat; pure (k, i, j)); pure (x, ops)) args with
+      -- relational: is the observed script an optimal, sorted, flag-respecting script turning a into b?
+      | some ((_, fl, _, a, b), ops) =>
+        match ops.mapM (fun (k, i, j) => (EKind.ofNat? k).map (fun k => (k, i, j))) with
+        | some l => if scriptAccept fl a b l then "accept" else "refuse"
+        | none => reject
       | none => reject
   | _ => none
 
